@@ -12,6 +12,27 @@ NOT_BUILT = "check not built yet in this round (claimed by DESIGN.md; " \
             "listed here until its static check exists and is exact)"
 
 CHECKS = {
+    "C06": {
+        "text": "Both move kernels are normalised symbolically: the "
+                "incremental delta must be the 2-opt identity (polynomial "
+                "identity up to matrix symmetry), every slice assignment "
+                "must denote the reversal of x[i..j] with negative-stop "
+                "hazards excluded by the path condition, x must be written "
+                "only on the accept path which returns y+dy, and the accept "
+                "guards must be dy<=0 / h[y2]<=h[y]. In solve(), all weak "
+                "orderings of the two index draws are enumerated to prove "
+                "0<=i<j<=n-2 and (i,j)!=(0,n-2) at the kernel, and the "
+                "kernel/register/evaluate wiring and the h-table size are "
+                "checked by symbolic dataflow.",
+        "design_ref": "DESIGN.md section 4, C06",
+        "note": "Decides D6.1-D6.5; the induction 'every registered y is "
+                "the true length' is by composition with C05. Trusted: "
+                "numpy slice semantics N4/N5, Generator.integers range, "
+                "symmetric instance precondition.",
+        "technique": "symbolic normal forms + slice-position reasoning "
+                     "under path conditions + exhaustive weak-ordering "
+                     "enumeration of the move indices",
+    },
     "C05": {
         "text": "The tour_length kernel is summarised by loop-reduction "
                 "recognisers into a closed form that must equal the cyclic "
